@@ -39,6 +39,8 @@ func runC10(r *Run) {
 	c10R2(r, li)
 	c10R3(r, li)
 	c10R4(r)
+
+	r.NilArgsRule("C10.R5", "asn1")
 }
 
 // ---- R1: lax propagation --------------------------------------------------------
